@@ -9,9 +9,9 @@ import vlib
 from vlib import log, Infra
 
 # ------------------------------------------------------------------ replay-based properties (direction B)
-FRAME_OPS = {"AddFrame", "DeclPoint", "DeclAnalog", "AddPointCols", "AddAnalogCols"}
+FRAME_OPS = {"AddFrame", "AddFrameAlias", "DeclPoint", "DeclAnalog", "AddPointCols", "AddAnalogCols"}
 CALLER_OPS = {"CallerNew", "CallerMutate", "EditStored"}
-PARAM_OPS = {"SetParam", "LockGroup", "UnlockGroup"}
+PARAM_OPS = {"SetParam", "SetParamAlias", "LockGroup", "UnlockGroup"}
 
 def norm_path(p):
     return re.sub(r"\[\d+\]", "[*]", p)
@@ -43,26 +43,28 @@ def relevant(pid, case, d):
     if pid == "C02":
         return op == "LoadBytes" and k in ("post", "out")
     if pid == "C12":
-        return (op == "LoadBytes" and k in ("post", "out")) or (op == "Reload" and k in ("bytes", "post", "out"))
+        return (op == "LoadBytes" and k in ("post", "out")) or (op == "Reload" and (k in ("post", "out", "resave") or bytes_bad))
+    bytes_bad = k == "bytes" and d.get("verdict") != "equivalent"     # layout differences that decode to the saved content are drift
     if pid == "C01":
-        return op == "Reload" and gen == 0 and (k in ("post", "out") or k == "bytes")
+        return op == "Reload" and gen == 0 and (k in ("post", "out") or bytes_bad)
     if pid == "C03":
         # the header block of a saved file is the in-memory header written verbatim: a header field that differs from the specification's
         # after any call is what the next save writes (the replay keeps one path per specification state, so the save that follows this
         # very history may be represented by another path)
-        return (op == "Reload" and k == "bytes") or (k == "post" and re.match(r"hdr\.(npts|meas|nanalogs|first|last|nframes|perframe|rate)$", path) is not None)
+        return (op == "Reload" and bytes_bad) or (k == "post" and re.match(r"hdr\.(npts|meas|nanalogs|first|last|nframes|perframe|rate)$", path) is not None)
     if pid == "C04":
-        return op == "Reload" and gen >= 1 and k in ("post", "out", "bytes")
+        return op == "Reload" and gen >= 1 and (k in ("post", "out", "resave") or bytes_bad)
     if pid == "C14":
         # definedness: the writer model is a function of the object's content only, so a byte that differs from it is not determined by the
         # content (the harness saves over an existing longer file and into a heap whose contents vary between cases)
-        return op == "Reload" and k in ("purity", "repeat", "bytes")
+        return op == "Reload" and (k in ("purity", "repeat") or bytes_bad)
     if pid == "C13":
         return k == "crash"
     return False
 
 def diff_key(pid, case, d):
-    return "%s:%s:%s:%s" % (pid, case["op"].get("op", "?"), d["k"], norm_path(d.get("path", "")))
+    path = "bytes" if d["k"] == "bytes" else norm_path(d.get("path", ""))
+    return "%s:%s:%s:%s%s" % (pid, case["op"].get("op", "?"), d["k"], path, (":" + d["verdict"]) if "verdict" in d else "")
 
 # ------------------------------------------------------------------ findings ledger: probes for the open entries
 def _run_ops(ez, ops):
@@ -122,12 +124,41 @@ def known_findings(pid, ez):
             log("[ledger] open finding %s/%s is no longer observed on this tree" % (pid, f["key"]))
     return n
 
+def judge_bytes_diffs(fails, limit=40):
+    """Saved bytes that differ from the writer model are judged on what they decode to (spec/EzJudge.tla): SelfConsistent, reader model and
+    independent decoder evaluated by TLC on the *real* bytes against the object that was saved. The verdict is attached to the difference."""
+    todo = []
+    for c in sorted(fails, key=lambda c_: c_["len"]):
+        for d in c["diffs"]:
+            if d["k"] == "bytes" and "actbytes" in d and "pre" in d and len(d["actbytes"]) < 40000:
+                todo.append(d)
+                break
+        if len(todo) >= limit: break
+    if not todo: return
+    work = vlib.scratch("judge"); p = os.path.join(work, "cases.ndjson")
+    with open(p, "w") as f:
+        for d in todo: f.write(json.dumps({"pre": d["pre"], "bytes": d["actbytes"]}) + "\n")
+    rc, out = vlib.run_tlc("EzJudge.tla", "EzJudge.cfg", workers=1, timeout=1500, env={"CASES": p})
+    verdicts = {}
+    for l in out.splitlines():
+        if l.startswith('"{'):
+            try:
+                v = json.loads(json.loads(l)); verdicts[v["case"]] = v
+            except ValueError: pass
+    for i, d in enumerate(todo, 1):
+        v = verdicts.get(i)
+        d["verdict"] = "unjudged" if v is None else ("equivalent" if v["consistent"] and v["roundtrip"] and v["decodes"] else "differs:" + ",".join(kk for kk in ("consistent", "roundtrip", "decodes") if not v[kk]))
+    for c in fails:
+        for d in c["diffs"]:
+            d.pop("actbytes", None); d.pop("pre", None)
+
 def report_replay(pid, results, tier, t0, level="model_checking", extra_cov=None, assumptions=(), trace=False):
     """results: list of (slice name, result of vlib.replay_slice). Prints verdict lines, writes evidence, returns exit code."""
     viol = {}     # key -> shortest case
     drift = {}
     states = transitions = cases = 0
     samples = []
+    judge_bytes_diffs([c for _, res in results for c in res["fails"]])
     for name, res in results:
         if res["tlc_errors"]:
             raise Infra("TLC reported an error on the specification itself (%s): %s; last ops %s\n%s" %
@@ -136,7 +167,10 @@ def report_replay(pid, results, tier, t0, level="model_checking", extra_cov=None
         if res.get("keep_mod", 1) == 1 and res["cases"] < res["tlc"]["generated"] - 1:
             raise Infra("replayed %d of %d transitions of %s" % (res["cases"], res["tlc"]["generated"] - 1, name))
         for c in res["fails"]:
+            gen0 = not any(o.get("op") in ("Reload", "LoadBytes") for o in c["path"])
             for d in c["diffs"]:
+                if d["k"] == "resave" and gen0:
+                    continue      # an object built through the API need not re-save to the same bytes after a load (C04 speaks of loaded files)
                 key = diff_key(pid, c, d)
                 tgt = viol if relevant(pid, c, d) else drift
                 if key not in tgt or c["len"] < tgt[key][0]["len"]:
@@ -227,12 +261,12 @@ def shape_consts(tier):
 def run_shape(pid, tier, t0):
     ez = report_replay.ez = vlib.build("plain")
     # quick: TLC explores and checks every transition, a random quarter of them is replayed (each with its whole path); thorough: all
-    res = vlib.replay_slice("MC_Shape.tla", "MC_Shape.cfg", shape_consts(tier), ez, tag="shape", timeout=9000, sample_k=4 if tier == "quick" else 1)
+    res = vlib.replay_slice("MC_Shape.tla", "MC_Shape.cfg", shape_consts(tier), ez, tag="shape", timeout=9000, sample_k=8 if tier == "quick" else 1)
     results = [("MC_Shape", res)]
     if pid == "C10":      # refused column adders over three frames with gaps (index up to count+2) come from the frame-centred slice
         results.append(("MC_Frames/columns", vlib.replay_slice("MC_Frames.tla", "MC_Frames.cfg", frames_consts("quick"), ez, tag="frames", timeout=9000, sample_k=6 if tier == "quick" else 2)))
         # refused parameter calls: unnamed, untyped (existing / new group), refused typed sets after accepted ones
-        results.append(("MC_Params", vlib.replay_slice("MC_Params.tla", "MC_Params.cfg", {"MaxVals": 2, "Deep": "FALSE"} if tier == "quick" else {"MaxVals": 3, "Deep": "TRUE"}, ez, tag="params", timeout=9000)))
+        results.append(("MC_Params", vlib.replay_slice("MC_Params.tla", "MC_Params.cfg", {"MaxVals": 2, "Deep": "FALSE"} if tier == "quick" else {"MaxVals": 3, "Deep": "TRUE"}, ez, tag="params", timeout=9000, sample_k=8 if tier == "quick" else 2)))
     return report_replay(pid, results, tier, t0, assumptions=SHAPE_ASSUME, trace=True)
 
 def frames_configs(tier):
@@ -242,10 +276,12 @@ def frames_configs(tier):
     if tier == "quick":
         return [("MC_Frames/callers", {"NTags": 2, "NCallers": 1, "NChan": 1, "MaxFrames": 2, "IdxSlack": 2, "WithEdits": "TRUE"}, 8),
                 ("MC_Frames/gaps", {"NTags": 0, "NCallers": 0, "NChan": 1, "MaxFrames": 3, "IdxSlack": 3, "WithEdits": "TRUE"}, 5),
-                ("MC_Frames/columns", {"NTags": 0, "NCallers": 0, "NChan": 2, "MaxFrames": 3, "IdxSlack": 3, "WithEdits": "FALSE"}, 6)]
+                ("MC_Frames/columns", {"NTags": 0, "NCallers": 0, "NChan": 2, "MaxFrames": 3, "IdxSlack": 3, "WithEdits": "FALSE"}, 6),
+                ("MC_Frames/alias", {"NTags": 0, "NCallers": 0, "NChan": 1, "MaxFrames": 3, "IdxSlack": 3, "WithEdits": "FALSE", "WithAlias": "TRUE"}, 8)]
     return [("MC_Frames/callers", {"NTags": 2, "NCallers": 1, "NChan": 1, "MaxFrames": 3, "IdxSlack": 2, "WithEdits": "TRUE"}, 4),
             ("MC_Frames/gaps", {"NTags": 0, "NCallers": 0, "NChan": 1, "MaxFrames": 3, "IdxSlack": 3, "WithEdits": "TRUE"}, 1),
-            ("MC_Frames/columns", {"NTags": 0, "NCallers": 0, "NChan": 2, "MaxFrames": 3, "IdxSlack": 3, "WithEdits": "FALSE"}, 1)]
+            ("MC_Frames/columns", {"NTags": 0, "NCallers": 0, "NChan": 2, "MaxFrames": 3, "IdxSlack": 3, "WithEdits": "FALSE"}, 1),
+            ("MC_Frames/alias", {"NTags": 0, "NCallers": 0, "NChan": 1, "MaxFrames": 3, "IdxSlack": 3, "WithEdits": "FALSE", "WithAlias": "TRUE"}, 1)]
 def frames_consts(tier):
     return frames_configs("quick")[2][1]
 
@@ -257,7 +293,7 @@ def run_frames(pid, tier, t0):
 def run_params(pid, tier, t0):
     ez = vlib.build("plain")
     consts = {"MaxVals": 2, "Deep": "FALSE"} if tier == "quick" else {"MaxVals": 3, "Deep": "TRUE"}
-    res = vlib.replay_slice("MC_Params.tla", "MC_Params.cfg", consts, ez, tag="params", timeout=6000)
+    res = vlib.replay_slice("MC_Params.tla", "MC_Params.cfg", consts, ez, tag="params", timeout=9000, sample_k=6 if tier == "quick" else 1)
     return report_replay(pid, [("MC_Params", res)], tier, t0,
                          assumptions=["parameter alphabet: int/float/string, 0..%s values, dimension arguments with up to %s entries" % (consts["MaxVals"], 8 if tier != "quick" else 3)])
 
@@ -272,10 +308,40 @@ def run_lookup(pid, tier, t0):
 def io_consts(tier):
     return {"NP": 1, "NA": 1, "MaxFrames": 1 if tier == "quick" else 2, "MaxPts": 1 if tier == "quick" else 2}
 
+def run_defined(pid, tier, t0):
+    """C14: purity / repeatability / bytes = function of the content on every save of the I/O slice, and the definedness sensor:
+    the same transitions are replayed in two runs whose heap is filled with different bytes (MALLOC_PERTURB_); every saved file must be
+    byte-identical in both - a byte taken from uninitialised or unrelated memory differs (or differs from the writer model)."""
+    ez = report_replay.ez = vlib.build("plain")
+    work = vlib.scratch("c14")
+    edges = os.path.join(work, "edges.io")
+    summ = vlib.dump_edges("MC_IO.tla", "MC_IO.cfg", io_consts(tier), edges)
+    runs = []
+    for perturb in ("165", "90"):
+        cases, fails, dig = vlib.replay_file(ez, edges, env={"MALLOC_PERTURB_": perturb, "EZ_EMIT_DIGEST": "1"})
+        runs.append((cases, fails, dig))
+    res = {"tlc": summ, "tlc_errors": [], "tlc_out_tail": "", "cases": runs[0][0], "fails": runs[0][1], "crashes": 0, "samples": [], "keep_mod": 1}
+    differing = [(kk, runs[0][2][kk], runs[1][2][kk]) for kk in runs[0][2] if kk in runs[1][2] and runs[0][2][kk][:2] != runs[1][2][kk][:2]]
+    extra = {"saves_compared_between_perturbed_runs": len(set(runs[0][2]) & set(runs[1][2])), "saves_differing_between_perturbed_runs": len(differing)}
+    rc = report_replay(pid, [("MC_IO (heap filled with 0x5A)", res)], tier, t0, extra_cov=extra, assumptions=SHAPE_ASSUME + [
+        "definedness sensor: glibc MALLOC_PERTURB_ with two different fill bytes; stack-resident undefined bytes are only caught through the comparison with the writer model"])
+    if differing:
+        kk, a, b = sorted(differing, key=lambda x: x[1][2])[0]
+        p = vlib.save_replay(pid, "perturb", {"property": pid, "kind": "corpus", "what": "a saved file differs between two runs that differ only in the bytes the heap is filled with (MALLOC_PERTURB_=165 vs 90)",
+                                                "saves_differing": len(differing), "example_key": kk, "lengths": [a[1], b[1]], "calls_in_history": a[2]})
+        log("VIOLATION property=%s replay=%s" % (pid, p))
+        log("  %d of %d saved files differ between two runs whose heap was filled with different bytes: some saved bytes are not determined by the object's content" % (len(differing), extra["saves_compared_between_perturbed_runs"]))
+        return 1
+    return rc
+
 def run_io(pid, tier, t0):
     ez = report_replay.ez = vlib.build("plain")
     res = vlib.replay_slice("MC_IO.tla", "MC_IO.cfg", io_consts(tier), ez, tag="io", timeout=6000)
     results = [("MC_IO", res)]
+    if pid == "C03":
+        # objects loaded from foreign layouts (parameter block 3, leading zeros, sparse ids, ...) and saved: the saved file must be ezc3d's own
+        # self-consistent layout whatever the loaded file looked like
+        results.append(("MC_Format/layout", vlib.replay_slice("MC_Format.tla", "MC_Format.cfg", {"Variant": '"layout"', "Full": "FALSE" if tier == "quick" else "TRUE"}, ez, tag="fmtlayout", timeout=9000)))
     if pid in ("C01", "C03"):
         # alignment sweep: every residue 0..511 of the parameter-section length modulo the block size
         results.append(("MC_Align", vlib.replay_slice("MC_Align.tla", "MC_Align.cfg", {"KMax": 255, "FromLoaded": "FALSE"}, ez, tag="align", timeout=6000, workers=8)))
@@ -523,9 +589,41 @@ def params_blocks_case(ez, nblocks):
         need -= 7 + 4 + 2 + cells * width
     return build_ops(1, 1, 1, 1, extra)
 
+def params_bytes_case(ez, target):
+    """Object whose parameter section (prologue + records, without terminator / padding) takes exactly `target` bytes."""
+    ops = build_ops(1, 1, 1, 1)
+    evs, _ = vlib.run_ops(ez, [dict(o, post=0) for o in ops[:-1]] + [ops[-1]])
+    body = 4          # prologue; then the records, as C3DFormat.SectionSize counts them
+    for g in evs[-1]["post"]["grp"]:
+        if not g["n"] and not g["p"]: continue
+        body += 5 + len(g["n"]) + len(g["d"])
+        for p in g["p"]:
+            n = 1
+            for x in p["dim"]: n *= x
+            if not p["dim"]: n = 0
+            body += 7 + len(p["n"]) + (0 if p["dim"] == [1] else len(p["dim"])) + len(p["d"]) + n * (1 if p["t"] == -1 else p["t"])
+    remaining = target - body - 8            # group record "BLK": 2 + 3 + 2 + 1
+    extra = []; k = 0
+    while remaining > 0:
+        k += 1
+        if remaining > 13 + 250 * 255 + 14:
+            cells, width = 250, 255
+        elif remaining > 13 + 255 + 14:
+            cells = (remaining - 13 - 14) // 255; width = 255
+            if cells < 1: cells = 1
+        else:
+            cells, width = 1, remaining - 13
+        assert width >= 1 and cells >= 1, (remaining, cells, width)
+        extra.append(_userparam("BLK", "T%03d" % k, -1, [vlib.codes("y" * width)] * cells))
+        remaining -= 13 + cells * width
+    assert remaining == 0, remaining
+    return build_ops(1, 1, 1, 1, extra)
+
 def run_limits(pid, tier, t0):
     ez = report_replay.ez = vlib.build("plain")
     cases = limit_cases(tier)
+    for tb in (130558, 130559, 130560, 130561, 130566, 130572):
+        cases.append(([{"limit": "section_bytes", "v": tb}], params_bytes_case(ez, tb)))
     for nb in (254, 255, 256):
         cases.append(([{"limit": "param_blocks", "v": nb}], params_blocks_case(ez, nb)))
     rc, out = vlib.run_tlc("EzLimits.tla", "EzLimits.cfg", timeout=300, workers=1)
@@ -755,7 +853,8 @@ def run_memsafe(pid, tier, t0):
             ("MC_Format.tla", "MC_Format.cfg", {"Variant": '"layout"', "Full": "FALSE"}, "layout", 2),
             ("MC_Params.tla", "MC_Params.cfg", {"MaxVals": 2, "Deep": "FALSE"}, "params", 8),
             ("MC_Lookup.tla", "MC_Lookup.cfg", {"NPts": 2, "MaxFrames": 1}, "lookup", 8),
-            ("MC_Frames.tla", "MC_Frames.cfg", frames_consts("quick"), "frames", 32)]
+            ("MC_Frames.tla", "MC_Frames.cfg", frames_consts("quick"), "frames", 32),
+            ("MC_Frames.tla", "MC_Frames.cfg", frames_configs("quick")[3][1], "alias", 16)]
     if not q:
         plan += [("MC_IO.tla", "MC_IO.cfg", io_consts("thorough"), "io2", 1), ("MC_Format.tla", "MC_Format.cfg", {"Variant": '"patterns"', "Full": "FALSE"}, "patterns", 1)]
     stderr = ""
@@ -802,7 +901,7 @@ CHECKS = {
     "C02": run_format, "C12": run_format,
     "C15": run_faults,
     "C13": run_memsafe,
-    "C01": run_io, "C03": run_io, "C04": run_format, "C14": run_io,
+    "C01": run_io, "C03": run_io, "C04": run_format, "C14": run_defined,
     "C11": run_lookup,
     "C09": run_params,
     "C06": run_frames,
